@@ -1,8 +1,9 @@
 #!/usr/bin/env python3
 """Prints a markdown table from evidence/*.json (what the last runs covered)."""
-import glob, json, os
+import glob, json, os, sys
+DIR = sys.argv[1] if len(sys.argv) > 1 else "evidence"
 rows = []
-for f in sorted(glob.glob(os.path.join(os.path.dirname(__file__), "..", "evidence", "C*.json"))):
+for f in sorted(glob.glob(os.path.join(os.path.dirname(__file__), "..", DIR, "C*.json"))):
     d = json.load(open(f))
     c = d["coverage"]
     rows.append("| %s | %s | %d/%d | %d | %d | %.0f | %.0f | %d | %d |" % (
